@@ -340,6 +340,41 @@ impl<'a> Sim<'a> {
         }
     }
 
+    /// C15 (second sentence): the bytes of an inbound message that decode must re-encode to the same
+    /// bytes (a node announcement without its optional trailing user agent excepted).
+    pub fn check_reencoding(&mut self, node: usize, peer: &NodeId, msg: &Message, frame: &[u8]) {
+        let own = self.own.clone();
+        // the message is the payload at the end of the frame; its offset follows a header of
+        // 4 (version) + 1..8 (stream id) + 1..8 (length) bytes
+        let mut found: Option<&[u8]> = None;
+        for hdr in 6..=20usize.min(frame.len()) {
+            let p = &frame[hdr..];
+            if let Ok(m2) = wire::deserialize::<Message>(p) {
+                if &m2 == msg {
+                    found = Some(p);
+                    break;
+                }
+            }
+        }
+        let Some(p) = found else {
+            // decodes only leniently (e.g. bytes after the message inside the payload): nothing to compare
+            self.res.hit("probe.c15.inbound_not_strictly_decodable");
+            return;
+        };
+        let re = wire::serialize(msg);
+        if re == p {
+            self.res.hit("probe.c15.inbound_reencodes_identically");
+            return;
+        }
+        let node_ann_without_agent = matches!(msg, Message::Announcement(a) if matches!(a.message, AnnouncementMessage::Node(_))) && re.len() > p.len() && re.starts_with(p);
+        if node_ann_without_agent {
+            self.res.hit("probe.c15.node_announcement_without_user_agent");
+            return;
+        }
+        self.res.trace.log("reencode-differs", format!("REENCODING DIFFERS n{node} <- {}: {} of {} bytes re-encodes to {} bytes", self.name(peer), msg_kind(msg), p.len(), re.len()));
+        self.res.violate(&own, "C15", &format!("C15/inbound/reencoding-differs/{}", msg_kind(msg)), format!("n{node} decoded a {} from {} whose {} bytes re-encode to {} different bytes: a signature checked on the re-encoding is not a signature over what was sent", msg_kind(msg), self.name(peer), p.len(), re.len()));
+    }
+
     /// The service of `node` emitted an `Io::Fetch` for `rid` from `remote`.
     pub fn check_fetch_emission(&mut self, node: usize, rid: &RepoId, remote: &NodeId, _trig: &Trigger) {
         if let Some((n, r, c, id)) = self.stale_watch {
